@@ -38,6 +38,8 @@ def nontrivial(engine, opline):
         return bool(t) and t[0] == 'tree'
     if engine == 'erc20':
         return bool(t) and t[0] in ('erc', 'esend')
+    if engine == 'crypto':
+        return bool(t) and t[0] in ('keccak', 'eip712')
     if engine == 'staking':
         return bool(t) and t[0] == 'stk'
     if engine == 'vauth':
@@ -196,6 +198,22 @@ PROPS['C11'] = dict(
                  'withdrawRewards / transfer evaluate the distribution query on the live context: validator period counters and historical-reward records differ from the native run; delegations, entries, balances, pending rewards, outstanding rewards, commission and community pool are compared and agree',
                  'slashing-free histories (as the property states); contracts reach the precompile through one forwarding frame (deeper trees are C12 / E-calltree)'],
     technique='Lean 4 theorems over a hand-written dispatch model (who acts for whom, which logs) + regenerated per-executor AST facts + twin execution of the real precompile against the SDK message servers',
+)
+
+PROPS['C19'] = dict(
+    lean_modules=['Model.Keccak', 'Model.Eip712', 'Model.Sig', 'Properties.C19', 'Facts.Crypto'],
+    facts=['*'],
+    theorems=['C19_verify_sound', 'C19_one_key', 'C19_one_message', 'C19_malformed_refused', 'C19_honest_accepted', 'C19_prim_injective',
+              'C19_extra_data_refused', 'C19_flatten_refuses_shadow', 'fact_verify_shape', 'fact_verify_ecdsa', 'fact_key_sizes', 'fact_address_calls',
+              'fact_eip712_fixed_types', 'fact_eip712_consts', 'fact_eip712_domain', 'fact_eip712_orders', 'fact_cpc_verify'],
+    engines=[dict(name='crypto', test='TestEngineCrypto', quick=1500, thorough=30000, thorough_seeds=3)],
+    level='partial',
+    rule='(a) Keccak-256 of the Lean model vs go-ethereum on inputs of every length class around the 136-byte rate; (b) generated JSON sign documents (1-3 messages over 5 type names with random value trees of depth <= 3: strings, integers, booleans, nulls, non-integral numbers, homogeneous and mixed arrays, nested objects; 22 malformations: dropped / extra / null top-level members, fee extras, empty amounts, msgs not an array, message not an object, missing / numeric / empty message type, pre-existing msg0, empty value, empty key, ...) through the real WrapTxToTypedData + TypedDataAndHash, digest compared with the Lean model digest for digest and error for error; (c) real amino-JSON and protobuf sign documents of registered messages (MsgSend, MsgDelegate, MsgWithdrawDelegatorReward, MsgVote, MsgMultiSend; 1-3 per document) through GetEIP712BytesForMsg: protobuf digest = amino digest = Lean digest, 11 single-field perturbations must each change the digest and invalidate both signature forms, honest signatures (64 / 65 bytes, over the plain bytes or over the rendering) must verify, another key / bit-flipped / truncated / extended / high-s signatures must not; (d) address vs independent decompression + Keccak, BIP-39/32/44 derivation vs cosmos-sdk BIP-32 and the published Hardhat vectors, amino / amino-JSON / protobuf Any key round trips, wrong key sizes refused. Non-trivial = every keccak / eip712 line; distinct by op-line hash',
+    assumptions=['ECDSA (unforgeability) and Keccak-256 (collision resistance) are ideal primitives of the model, not proved',
+                 'BIP-39/32/44 conformance and the encodings are tested against a second implementation and published vectors (sampled, not proved)',
+                 'the EIP-712 model covers documents with distinct ASCII keys and integral numbers |n| <= 2^53 (canonical amino JSON is inside); gjson path characters in keys are outside',
+                 'full injectivity of the rendering over nested documents is not proved yet: proved are refusal of extra / missing members, injectivity of primitive encodings, refusal of shadowing msg{i} keys; the executable model is compared with the Go code on every run'],
+    technique='Lean 4 theorems over an ideal-signature model of VerifySignature and an executable EIP-712 rendering model (with Keccak-256 in Lean) + regenerated AST facts + digest-for-digest differential against the real code; key derivation and encodings by differential test only',
 )
 
 PROPS['C17'] = dict(
